@@ -500,8 +500,8 @@ func (f *Frame) backEdge(u, h *ssa.BasicBlock) {
 
 // frameAxiom: array `nw` agrees with `old` on every object that existed before `limit`, except the locations listed in mods.
 func (s *Session) frameAxiom(key, srt, nw, old, limit string, mods map[string][]modLoc) string {
-	if !strings.HasPrefix(srt, "(Array Int ") {
-		return "true"
+	if !strings.HasPrefix(srt, "(Array Int ") || strings.HasPrefix(key, "ch:") {
+		return "true" // channel ghost state is shared, mutable state: never framed
 	}
 	var except []string
 	for _, mk := range sortedModKeys(mods) {
